@@ -250,7 +250,7 @@ class _validate_exclude:
         return as_set(exclude, set())
 
 
-@contract(M + 'valid', props=['C11', 'C05', 'C13'])
+@contract(M + 'valid', props=['C11', 'C05', 'C13', 'C14', 'C17'])
 class valid:
     """valid(I, E) == Clo(I) \\ Clo(E) with I = all when include is None and E = {} when exclude is None --
     for symbolic sets, in every argument shape; ValueError exactly when a member is not a category."""
